@@ -24,6 +24,7 @@ mod c05;
 #[allow(dead_code)]
 mod gen_vp8l;
 mod c01;
+mod c01spec;
 
 fn main() {
     let args: Vec<String> = std::env::args().collect();
@@ -49,6 +50,7 @@ fn main() {
         "c02" => c02::run(tier, seed, out, extra),
         "c05" => c05::run(tier, seed, out, extra),
         "c01" => c01::run(tier, seed, out, extra),
+        "c01spec" => c01spec::run(tier, seed, out, extra),
         other => {
             eprintln!("unknown check {other}");
             std::process::exit(2);
